@@ -75,7 +75,8 @@ OutcomeMatches(r, e) ==
 
 (* the successful writes the reference expects, as a bag: reactions in order, the presentation *)
 (* request, the released commands (a set: any order)                                           *)
-ExpCount(r, x) == Count(r.react, x) + (IF r.presOk THEN Count(r.pres, x) ELSE 0) + (IF x \in r.rel THEN 1 ELSE 0)
+ExpCount(r, x) == Count(r.react, x) + (IF r.presOk THEN Count(r.pres, x) ELSE 0)
+                  + (IF x \in r.rel THEN (IF x \in DOMAIN r.relCount THEN r.relCount[x] ELSE 1) ELSE 0)
 ExpSupport(r)  == ToSet(r.react) \cup ToSet(r.pres) \cup r.rel
 BagMatches(ok, r, F(_)) == \A x \in ToSet(ok) \cup ExpSupport(r) : F(x) => Count(ok, x) = ExpCount(r, x)
 IsReactW(r, m)  == ~IsPresW(m) /\ m \notin r.rel /\ m \notin r.relFail
@@ -123,7 +124,7 @@ Match(r, e, prevErr) ==
           /\ BagMatches(ok, r, AnyW)
 
 -----------------------------------------------------------------------------
-NoHid == [setbuf |-> EmptyFn, asked |-> {}, held |-> {}, prevErr |-> FALSE]
+NoHid == [setbuf |-> EmptyFn, asked |-> {}, held |-> EmptyFn, prevErr |-> FALSE]
 
 TraceInit == /\ tid \in 1..Len(Traces)
              /\ l = 1
